@@ -1023,6 +1023,14 @@ $out := o$u
 @body
 $out := strings.Map(func(r rune) rune { return r }, $in)
 
+### cbuserapply closures
+@decls
+func apply$u(f func(string), s string) { f(s) }
+@body
+var o$u string
+apply$u(func(p string) { o$u = p }, $in)
+$out := o$u
+
 ### defernamed defers
 @decls
 func dn$u(s string) (r string) {
@@ -1183,6 +1191,34 @@ func getg$u() string  { return gl$u[1] }
 @body
 setg$u($in)
 $out := getg$u()
+
+### globalxchg globals
+@decls
+var gx$u string
+
+func xchg$u(v string) string {
+	old := gx$u
+	gx$u = v
+	return old
+}
+@body
+xchg$u($in)
+$out := xchg$u("reset")
+
+### globalxchgptr globals
+@decls
+type GX$u struct{ v string }
+
+var gxp$u = &GX$u{}
+
+func swap$u(n *GX$u) *GX$u {
+	old := gxp$u
+	gxp$u = n
+	return old
+}
+@body
+swap$u(&GX$u{v: $in})
+$out := swap$u(&GX$u{}).v
 
 ### globalfuncx globals funcval
 @decls
@@ -1792,4 +1828,59 @@ w$u.wg.Add(1)
 go w$u.run($in)
 w$u.wg.Wait()
 $out := w$u.v
+
+### goselmixed conc
+@decls
+type H$u struct{ v string }
+@body
+pc$u := make(chan *H$u, 1)
+tick$u := make(chan int)
+ack$u := make(chan bool)
+back$u := make(chan string, 1)
+go func() {
+	h := &H$u{}
+	pc$u <- h
+	<-ack$u
+	back$u <- h.v
+}()
+select {
+case n := <-tick$u:
+	_ = n
+case h := <-pc$u:
+	h.v = $in
+}
+ack$u <- true
+$out := <-back$u
+
+### goinlinecap conc
+@decls
+type H$u struct{ v string }
+@body
+h$u := &H$u{}
+req$u := make(chan bool)
+back$u := make(chan string, 1)
+go func(p *H$u) {
+	<-req$u
+	back$u <- p.v
+}(h$u)
+func() { h$u.v = $in }()
+req$u <- true
+$out := <-back$u
+
+### godefercap conc
+@decls
+type H$u struct{ v string }
+@body
+h$u := &H$u{}
+req$u := make(chan bool)
+back$u := make(chan string, 1)
+go func(p *H$u) {
+	<-req$u
+	back$u <- p.v
+}(h$u)
+func() {
+	defer func() { h$u.v = $in }()
+}()
+req$u <- true
+$out := <-back$u
 `
